@@ -1,6 +1,7 @@
 //! momsim — deterministic simulator with fault injection for alphal00p/momtrop.
 //! See /verif/DESIGN.md.
 
+mod c05;
 mod c16;
 mod c17;
 mod ctx;
@@ -28,6 +29,7 @@ fn props() -> Vec<Box<dyn Property>> {
         Box::new(prop_sc::ScenarioProp { flavor: c17::Flavor::C17 }),
         Box::new(prop_sc::ScenarioProp { flavor: c17::Flavor::C18 }),
         Box::new(c16::C16),
+        Box::new(c05::C05),
     ]
 }
 
@@ -129,6 +131,15 @@ fn meta_for(id: &str) -> driver::Meta {
             level: "exploration",
             rule: "each run = one seeded restart scenario (persist / drop / restore through SimStore with seeded legal read behaviour or serde_json, optionally published to concurrent callers, up to several generations); oracle = restored image == pristine image and every later sample bit-equal to the never-serialised reference. Non-trivial = at least one restart executed; distinct = distinct digest of (context-switch sequence, all results)".into(),
             assumptions: common_assume,
+            components: components(),
+        },
+        "C05" => driver::Meta {
+            level: "exploration",
+            rule: "each run = one seeded multigraph (V<=6, E<=7 quick / 9 thorough, self-loops, parallel edges, several components, arbitrary u8 labels, externals on arbitrary subsets incl. untouched vertices and none, mass patterns, D=1..6, weights from a menu or steered so that one subset sits at +-1e-8 / +-1e-6 / +-1e-3 / inside the 1e-9 band) built three times (hash-key stream A, stream B, stream A again later in the process history) and, for a third of the accepted graphs, concurrently by 2-3 simulated callers interleaved at every 1st/2nd/5th hash-key draw. Oracle: Ok/Err against a union-find + exact-rational model of the generalised degree of divergence (band excluded), J finite and positive, no panic, bit-identical SimStore images / agreeing Err presence across all builds. Non-trivial = the builder drew hash keys; distinct = distinct (graph, key streams) or distinct context-switch digest of a threaded build".into(),
+            assumptions: vec![
+                "graphs are bounded by E<=9 and edge-adjacency BFS depth <=5 because momtrop's component search is exponential in BFS depth; the no-panic clause is decided only within these bounds".into(),
+                "the model's reading of 'generalised degree of divergence' agreed with the pinned code on 3000 random multigraphs in a prototype (DESIGN.md 4)".into(),
+            ],
             components: components(),
         },
         "C16" => driver::Meta {
